@@ -22,7 +22,6 @@ FILES = {
     "internal/accumulation/zz_verif_accrounds_test.go": "accrounds/accrounds_test.go",
 }
 WHAT = "accumulation result depends on the schedule / differs from the Gray Paper order"
-COMPONENT_INVS = ["InvStore", "InvT", "InvU", "InvSpent", "InvUSet", "InvRounds"]
 
 
 def mc_mode(ctx, mode, maxn, invs, workers, label, expect_ok):
@@ -62,10 +61,12 @@ def run(ctx):
     # design: the repaired shape has one outcome; the as-is shape shows which outputs depend on the order
     mc_mode(ctx, "repaired", 1 if q else 2, ["AllOutcomesEqual", "InvUSet", "InvRounds"], 2 if q else 6, "MC_AccRounds/repaired", True)
     dependent = []
-    for inv in (["InvStore"] if q else COMPONENT_INVS):
-        res = mc_mode(ctx, "asis", 2, [inv], 2 if q else 4, "MC_AccRounds/asis-" + inv, False)
+    # one run per component that the model predicts to be order-dependent (TLC stops at the first violated invariant),
+    # one run for the components predicted to be order-independent
+    for invs in ([["InvStore"]] if q else [["InvStore"], ["InvT"], ["InvU"], ["InvSpent", "InvUSet", "InvRounds"]]):
+        res = mc_mode(ctx, "asis", 2, invs, 2 if q else 4, "MC_AccRounds/asis-" + "+".join(invs), False)
         if res.inv_violated:
-            dependent.append(inv)
+            dependent += res.inv_violated
         elif not res.ok:
             raise vf.Infra("as-is model run did not complete:\n" + res.tail(40))
     ctx.cov["actions"]["model_order_dependent_outputs_asis"] = dependent
